@@ -63,16 +63,22 @@ class Ledger:
                         exp.append(self.site_of_machine[sn] if root['states'][sn]['kind'] == 'sub' else '%s.%s' % (root['name'], sn))
                     got = []
                     j = pos + 1
-                    while j < len(recs) and recs[j].k in ('EN', 'SUB', 'SUBRET') and len(got) < len(exp):
-                        if recs[j].k == 'EN' and (recs[j].site.startswith(root['name'] + '.') or recs[j].site.startswith('.')):
-                            got.append(recs[j].site)
-                        elif recs[j].k == 'EN' and root['states'].get(recs[j].site.split('.')[0], {}).get('kind') != 'sub' \
-                                and recs[j].site.split('.')[0] not in self.ix.machines:
+                    rn = root['name']
+                    aborted = False
+                    while j < len(recs) and recs[j].k != 'RET' and len(got) < len(exp):
+                        x = recs[j]
+                        if x.k in ('THROW', 'ESC', 'SIGNAL', 'STDERR'):
+                            aborted = True
                             break
+                        if x.k == 'EN' and (x.site.startswith(rn + '.') or x.site.startswith('.')):
+                            got.append(x.site)
+                        elif (x.k == 'EX' and x.site.startswith(rn + '.')) or (x.k in ('G', 'A') and x.site.startswith(rn + '#')) \
+                                or (x.k == 'NT' and x.site == rn):
+                            break           # the root's own rows run only after all its initial states are entered
+                        # records of nested machines (their entries and their completion transitions, C10) interleave
                         j += 1
-                    if got != exp[:len(got)] or (len(got) < len(exp) and not any(x.k == 'EN' for x in recs[j:j + 1])):
-                        if got != exp:
-                            self.rej({'C03'}, 'start-not-initial', exp, 'entered by start(): %s' % got, pos)
+                    if not aborted and got != exp:
+                        self.rej({'C03'}, 'start-not-initial', exp, 'entered by start(): %s' % got, pos)
                     self.cov['C03'].add(('start', tuple(exp)))
                 continue
             if r.k in ('EN', 'EX'):
